@@ -485,16 +485,16 @@ theorem other_members :
     limits_is_specialized = 1 ∧ limits_is_integer = 0 ∧ limits_is_exact = 0 ∧ limits_is_modulo = 0 := by
   decide
 
-/-- OBSERVATION, outside the property (its list of extremes does not include the
-classification traits): the type IS bounded — every finite half lies in
-`[lowest(), max()]`, 2^16 patterns in all — whatever `is_bounded` says.  The
-header currently says `is_bounded = false` (the check reports the regenerated
-value in `extra.observed_outside_property`); this statement holds for either
-value, so neither the present header nor a corrected one fails it. -/
-theorem is_bounded_observed :
+/-! OBSERVATION, outside the property (its list of extremes does not include the
+classification traits), deliberately NOT a counted theorem: the type IS bounded —
+every finite half lies in `[lowest(), max()]` (`lowest_is_neg_max`), 2^16
+patterns in all — whatever `is_bounded` says.  The header currently says
+`is_bounded = false`; the check reports the regenerated value in
+`extra.observed_outside_property`.  The `example` holds for either value. -/
+example :
     (∀ h, h < 65536 → isFinite h = true → (sval limits_lowest ≤ sval h ∧ sval h ≤ sval limits_max)) ∧
-    (limits_is_bounded = 0 ∨ limits_is_bounded = 1) := by
-  exact ⟨lowest_is_neg_max.2.2, by decide⟩
+    (limits_is_bounded = 0 ∨ limits_is_bounded = 1) :=
+  ⟨lowest_is_neg_max.2.2, by decide⟩
 
 -- non-vacuity of the hypotheses used above
 example : (0x3c00 : Nat) < 65536 ∧ isNan 0x3c00 = false ∧ isFinite 0x3c00 = true := by decide
